@@ -2601,3 +2601,130 @@ def rule_no_superlinear_regex(ctx, rep: Report, rid="Z8", package="gtwrap/"):
                 rep.add(rid, f"regex:{mi.rel.split('/')[-1]}:Regex({str(c.args[0].value)[:30]!r}):no ambiguous nested repetition", not probs, f"{probs[:2]}",
                         f"{mi.rel}:{c.lineno}", nontrivial=bool(probs))
     rep.units["regexes_checked"] = n
+
+
+_MUTATORS = {"append", "extend", "insert", "remove", "pop", "clear", "add", "discard", "update", "popitem", "setdefault", "sort", "reverse", "popleft", "appendleft"}
+
+
+def while_loops_without_progress(fn) -> List[Tuple[ast.While, int, List[str]]]:
+    """`while` loops of fn that have an iteration path which neither leaves the loop (break / return / raise) nor changes
+    anything the loop's condition reads: [(loop, line where such a path ends, names the condition reads)].  A name counts
+    as changed by an assignment to it (or to an attribute / item of it) and by a mutating method called on it."""
+    out = []
+    for loop in [x for x in ast.walk(fn) if isinstance(x, ast.While)]:
+        if isinstance(loop.test, ast.Constant) and loop.test.value:
+            names = set()
+        else:
+            bound_in_test = {t.id for c in ast.walk(loop.test) if isinstance(c, ast.comprehension) for t in ast.walk(c.target) if isinstance(t, ast.Name)}
+            names = {x.id for x in ast.walk(loop.test) if isinstance(x, ast.Name) and isinstance(x.ctx, ast.Load)} - bound_in_test - {"any", "all", "len", "not", "isinstance", "True", "False", "None"}
+
+        def progress(st) -> bool:
+            for x in ast.walk(st):
+                if isinstance(x, (ast.Assign, ast.AugAssign, ast.AnnAssign)):
+                    tgts = x.targets if isinstance(x, ast.Assign) else [x.target]
+                    for t in tgts:
+                        for y in ast.walk(t):
+                            if isinstance(y, ast.Name) and y.id in names:
+                                return True
+                if isinstance(x, ast.Delete) and any(isinstance(y, ast.Name) and y.id in names for t in x.targets for y in ast.walk(t)):
+                    return True
+                if isinstance(x, ast.Call) and isinstance(x.func, ast.Attribute) and x.func.attr in _MUTATORS \
+                        and any(isinstance(y, ast.Name) and y.id in names for y in ast.walk(x.func.value)):
+                    return True
+                if isinstance(x, ast.NamedExpr) and isinstance(x.target, ast.Name) and x.target.id in names:
+                    return True
+            return False
+        ends: List[int] = []
+
+        def seq(stmts, states: Set[bool]) -> Set[bool]:
+            for st in stmts:
+                if not states:
+                    break
+                if isinstance(st, (ast.Return, ast.Raise, ast.Break)):
+                    return set()
+                if isinstance(st, ast.Continue):
+                    if False in states:
+                        ends.append(st.lineno)
+                    return set()
+                if isinstance(st, ast.If):
+                    pre = {True} if progress(st.test) else states
+                    states = seq(st.body, set(pre)) | seq(st.orelse, set(pre))
+                elif isinstance(st, (ast.For, ast.While)):
+                    inner = seq(st.body, set(states))
+                    states = states | inner | seq(st.orelse, set(states))
+                elif isinstance(st, ast.With):
+                    states = seq(st.body, states)
+                elif isinstance(st, ast.Try):
+                    a = seq(st.body, set(states))
+                    o = seq(st.orelse, set(a)) if st.orelse else a
+                    for h in st.handlers:
+                        o |= seq(h.body, states | a)
+                    states = seq(st.finalbody, o) if st.finalbody else o
+                elif isinstance(st, (ast.FunctionDef, ast.ClassDef)):
+                    continue
+                else:
+                    states = {True} if progress(st) else states
+            return states
+        end = seq(loop.body, {True} if progress(loop.test) else {False})
+        if False in end:
+            ends.append(loop.body[-1].end_lineno or loop.body[-1].lineno)
+        if ends:
+            out.append((loop, min(ends), sorted(names)))
+    return out
+
+
+_WHILE_POSITIVE = """
+def f(args):
+    out = []
+    while any(a.default is not None for a in args):
+        last = args[-1]
+        if last.default is not None:
+            args.remove(last)
+    return out
+"""
+_WHILE_NEGATIVE = """
+def f(obj):
+    names = []
+    ancestor = obj.parent
+    while ancestor and ancestor.name:
+        names = [ancestor.name] + names
+        ancestor = ancestor.parent
+    i = 0
+    while i < 3:
+        if names:
+            i += 1
+            continue
+        i += 2
+    return names
+"""
+
+
+def rule_while_loops_make_progress(ctx, rep: Report, rid="V11", packages=("gtwrap/", "scripts/")):
+    """A failing run terminates.  Every `while` loop of the tool changes, on every path through its body that stays in the
+    loop, something its condition reads (the counter, the cursor, the list that is being consumed).  A body that changes it
+    only under a condition spins for ever on the input for which the condition is false - e.g. peeling defaulted arguments
+    off the end of a list `while any(default)` stops making progress when a defaulted argument is followed by a required
+    one, and the assertion that used to reject that input is never reached."""
+    for label, src, want in (("positive", _WHILE_POSITIVE, True), ("negative", _WHILE_NEGATIVE, False)):
+        if bool(while_loops_without_progress(ast.parse(src).body[0])) != want:
+            raise AnalysisError(f"{rep.prop}/{rid}: built-in {label} example is not decided as expected")
+    prog = ctx.prog
+    nfun = nloops = 0
+    for mi in sorted(prog.modules.values(), key=lambda m: m.rel):
+        if not mi.rel.startswith(packages):
+            continue
+        fns = [(name, f) for name, f in mi.functions.items()] + [(f"{q}.{m}", f) for q, c in mi.classes.items() for m, f in c.methods.items()]
+        for name, fn in sorted(fns, key=lambda x: x[0]):
+            nfun += 1
+            loops = [x for x in ast.walk(fn) if isinstance(x, ast.While)]
+            nloops += len(loops)
+            bad = {id(l): (ln, names) for l, ln, names in while_loops_without_progress(fn)}
+            for k, l in enumerate(loops):
+                hit = bad.get(id(l))
+                rep.add(rid, f"{mi.rel}:{name}:while#{k}:every iteration changes what the condition reads, or leaves the loop", hit is None,
+                        f"`while {unparse(l.test)[:50]}`: a path through the body ending at line {hit[0] if hit else 0} changes none of {hit[1] if hit else []} and does not "
+                        f"leave the loop: on an input that takes this path the run never ends (no output, no error)", f"{mi.rel}:{l.lineno}")
+    rep.units["functions_scanned_for_while_loops"] = nfun
+    rep.units["while_loops"] = nloops
+    if nfun < 100:
+        raise AnalysisError(f"{rep.prop}/{rid}: only {nfun} functions scanned")
